@@ -236,3 +236,24 @@ func init() {
 	bin("Max", ">")
 	bin("Min", "<")
 }
+
+// ---- output-only calls: no effect on the verified state (A-STD) -----------------------------------
+func init() {
+	noop := func(vc *VC, fr *Frame, st *State, args []Val, pos token.Pos) []Outcome {
+		vc.assume("A-STD")
+		return one(st)
+	}
+	for _, n := range []string{"log.Printf", "log.Println", "log.Print"} {
+		extHandlers[n] = noop
+	}
+	count := func(vc *VC, fr *Frame, st *State, args []Val, pos token.Pos) []Outcome {
+		vc.assume("A-STD")
+		n := vc.freshTerm("printed", vc.intSort(64))
+		n.Signed = true
+		st.Fact(vc.iLe(vc.idx(0), n, true))
+		return one(st, n, Term{S: SErr, E: "err_nil"})
+	}
+	for _, n := range []string{"fmt.Printf", "fmt.Println", "fmt.Print"} {
+		extHandlers[n] = count
+	}
+}
